@@ -8,6 +8,7 @@ import (
 	"errors"
 	"fmt"
 	"io"
+	"sort"
 	"strings"
 
 	"seehuhn.de/go/pdf"
@@ -137,12 +138,19 @@ func workload(h *simdisk.Handle, size int64, opt *pdf.ReaderOptions, refs []pdf.
 		}
 		// typed, cached decode of the same reference
 		name = fmt.Sprintf("Decode(%d,%d)", ref.Number(), ref.Generation())
-		v, err := pdf.Decode(pdf.CursorAt(x, nil), ref, func(c pdf.Cursor, o pdf.Object, direct bool) (string, error) {
-			if s, ok := o.(*pdf.Stream); ok {
-				return "stream " + gen.Show(s.Dict), nil
-			}
-			return gen.Show(o), nil
-		})
+		v, err := pdf.Decode(pdf.CursorAt(x, nil), ref, decodeFn)
+		if err != nil {
+			steps = append(steps, step{name: name, err: err})
+		} else {
+			steps = append(steps, step{name: name, val: v})
+		}
+	}
+	// every reference once more through the same Extractor: what the first
+	// pass left in the cache - after a success or after a failure - must not
+	// change the answer
+	for _, ref := range refs {
+		name := fmt.Sprintf("DecodeAgain(%d,%d)", ref.Number(), ref.Generation())
+		v, err := pdf.Decode(pdf.CursorAt(x, nil), ref, decodeFn)
 		if err != nil {
 			steps = append(steps, step{name: name, err: err})
 		} else {
@@ -151,6 +159,48 @@ func workload(h *simdisk.Handle, size int64, opt *pdf.ReaderOptions, refs []pdf.
 	}
 	steps = append(steps, copyStep(r, refs))
 	return steps
+}
+
+// decodeFn is the typed decoder of the workload: it renders the object and
+// resolves the references found one level down, so that the decode function
+// itself reads from the source (as every real decoder does).
+func decodeFn(c pdf.Cursor, o pdf.Object, direct bool) (string, error) {
+	var top pdf.Object = o
+	if s, ok := o.(*pdf.Stream); ok {
+		top = s.Dict
+	}
+	out := gen.Show(top)
+	var subs []pdf.Object
+	switch v := top.(type) {
+	case pdf.Dict:
+		keys := make([]string, 0, len(v))
+		for k := range v {
+			keys = append(keys, string(k))
+		}
+		sort.Strings(keys)
+		for _, k := range keys {
+			subs = append(subs, v[pdf.Name(k)])
+		}
+	case pdf.Array:
+		subs = v
+	}
+	n := 0
+	for _, sub := range subs {
+		if _, isRef := sub.(pdf.Reference); !isRef || n >= 3 {
+			continue
+		}
+		n++
+		res, err := c.Resolve(sub)
+		if err != nil {
+			return "", err
+		}
+		if st, ok := res.(*pdf.Stream); ok {
+			out += " -> stream " + gen.Show(st.Dict)
+		} else {
+			out += " -> " + gen.Show(res)
+		}
+	}
+	return out, nil
 }
 
 // copyStep copies the first few references into a fresh in-memory target with
